@@ -21,7 +21,14 @@ MANIFEST = dict(
          'stream ending at a boundary gives EOFError, inside a header or payload OSError, right after a '
          'header EOFError, never a short message; maxlength exceeded raises with the payload unread and '
          'the connection unreadable/closed; BufferTooShort carries the whole message; bad '
-         'offsets/sizes/closed/wrong-direction handles are rejected before any I/O. '
+         'offsets/sizes/closed/wrong-direction handles are rejected before any I/O; a sender stopped by an OS '
+         'error leaves k whole messages and a proper prefix, the receiver delivers the k and raises. '
+         'Buffers of any shape (bytes, item size, shape): on every flat view (1-D bytes, or items wider than a '
+         'byte) send_bytes is the 1-D function (all theorems apply); for multi-dimensional byte buffers the '
+         'exact wire is proved (header = first dimension) and the property is refuted with witnesses '
+         '(C13_send_shaped_refuted, C13_send_shaped_spin_refuted, C13_into_shaped_refuted). The _send/_recv '
+         'loops and _send_bytes/_recv_bytes rebuilt from the generated fragments are proved equal to the model '
+         'loops for every script. '
          'Correspondence of the real Connection against the model on scripted pipes, socket pairs and '
          'memory streams.',
     note='Trusted: Coq kernel, translator + kernels/framing.py, harness seams (write=/read= default '
